@@ -74,6 +74,19 @@ FIXED_SET = [
 ]
 
 
+# class files (parser.ParseGoPlusClass): the first var declaration may embed types: class-only syntax
+CLASS_PREFIX = ["var *Sprite\n\n", "var Sprite\n", "var (\n\tSprite\n\tx int\n)\n\n", "var (\n\t*Sprite\n)\n", "var (\n\ta int\n\tGame\n)\n"]
+CLASS_SET = [
+    'var *Sprite\n\necho "hi"\n\nfunc onStart() {\n\techo x\n}\n',
+    'var (\n\tSprite\n\tx int\n)\n\nx = 1\nfunc onStart() {\n}\nfunc (p *T) m() {}\necho x\n',
+    'var Sprite\necho 1\nfunc f() {}\n',
+    'var *Sprite\n\nfunc onStart() {\n}\n',
+    'var *Sprite\n\necho 1\n',
+    'var (\n\t*Sprite\n)\necho 1; func f() {}; echo 2\n',
+    'echo 1\nfunc f() {}\n',
+]
+
+
 def gen_script(rng):
     n = rng.below(9)
     parts = []
@@ -155,14 +168,20 @@ def run(ctx):
     rng = ctx.rng
     ctx.log("built model and harness")
 
-    cases, origin = [], {}
+    cases, clsl, orig, seen = [], [], [], set()     # source, class flag of the SourceEx clause, origin tag
 
-    def add(b, tag):
+    def add(b, tag, cls=False):
         if isinstance(b, str):
             b = b.encode()
-        if b not in origin:
-            origin[b] = tag
+        if (b, cls) not in seen:
+            seen.add((b, cls))
             cases.append(b)
+            clsl.append(cls)
+            orig.append(tag)
+
+    for s in CLASS_SET:
+        add(s, "class-set", True)
+        add(s, "class-set", False)
 
     for s in FINDING_SET:
         add(s, "comment-after-func-set")
@@ -193,11 +212,16 @@ def run(ctx):
         else:
             b = mutate(rng, "\n".join(rng.choice(FUNCS + STMTS + DECLS) for _ in range(1 + rng.below(5))) + "\n", 2)
         add(b, ["script", "script-mutated", "testdata-mutated", "lines-mutated"][k])
+        if i % 5 == 0:      # class files: class-only syntax in the prefix, SourceEx driven with class=true
+            c = rng.choice(CLASS_PREFIX).encode() + (b if k != 2 else gen_script(rng).encode())
+            if k in (1, 3):
+                c = mutate(rng, c, 2)
+            add(c, "class-" + ["script", "script-mutated", "script", "lines-mutated"][k], True)
 
     # the SourceEx clause costs up to five parse+print runs per input: evaluated on everything except the
     # longer half of the exhaustive concatenations
-    with_src = [not (origin[b] == "exhaustive" and i >= n_ex3) for i, b in enumerate(cases)]
-    inp = "\n".join(("+" if w else "") + enc(b) for b, w in zip(cases, with_src)) + "\n"
+    with_src = [not (orig[i] == "exhaustive" and i >= n_ex3) for i in range(len(cases))]
+    inp = "\n".join(("*" if c else "+" if w else "") + enc(b) for b, w, c in zip(cases, with_src, clsl)) + "\n"
     rc, out = ctx.run([impl], input=inp, timeout=900)
     lines = out.splitlines()
     ctx.log("harness ran on %d inputs" % len(cases))
@@ -209,7 +233,7 @@ def run(ctx):
     if bad:
         ctx.broken("correspondence(c24:harness-output)", "malformed line for case %s: %s" % (enc(cases[bad[0]]), lines[bad[0]][:200]))
         return
-    minp = "\n".join("\t".join([enc(b), f[0], f[1], f[2], f[3]]) for b, f in zip(cases, F)) + "\n"
+    minp = "\n".join("\t".join([enc(b), f[0], f[1], f[2], f[3], "1" if c else "0"]) for b, f, c in zip(cases, F, clsl)) + "\n"
     rc, mout = ctx.run([model], input=minp, timeout=900)
     mlines = mout.splitlines()
     ctx.log("model ran")
@@ -217,7 +241,7 @@ def run(ctx):
         ctx.broken("correspondence(c24:model-run)", "rc=%d lines=%d cases=%d %s" % (rc, len(mlines), len(cases), mout[-300:]))
         return
     G = [l.split("\t") for l in mlines]
-    keys = [enc(b) for b in cases]
+    keys = [enc(b) + ("/class" if c else "") for b, c in zip(cases, clsl)]
     # the hypothesis of the theorems holds for every token list fed
     notil = [k for k, g in zip(keys, G) if g[0] != "T"]
     if notil:
@@ -232,16 +256,18 @@ def run(ctx):
     # first non-declaration at the same place; classification is compared through the verdict)
     ctx.diff_lines("top_chunks~oracle-chunker", keys, "\n".join(f[5] for f in F), "\n".join(strip_flags(g[2]) for g in G))
     # C: direct oracle
-    for b, f in zip(cases, F):
+    for i, (b, f) in enumerate(zip(cases, F)):
         if f[7] != "ok":
-            ctx.fail("src:" + vlib.sha(b), "RearrangeFuncs(%r): %s" % (b[:120], f[7]),
-                     {"src_hex": enc(b), "src": b.decode("utf-8", "replace"), "verdict": f[7],
-                      "impl_hex": f[2], "origin": origin[b]})
+            ctx.fail("src:" + vlib.sha(b) + ("/class" if clsl[i] else ""),
+                     "RearrangeFuncs / SourceEx(class=%s)(%r): %s" % (clsl[i], b[:120], f[7]),
+                     {"src_hex": enc(b), "src": b.decode("utf-8", "replace"), "class": clsl[i], "verdict": f[7],
+                      "impl_hex": f[2], "source(src,class)": f[1], "source(rearranged,class)": f[3], "source_ex": f[4],
+                      "origin": orig[i]})
     # evidence
     shapes, orig_h = {}, {}
     nontriv = 0
-    for b, f, g in zip(cases, F, G):
-        orig_h[origin[b]] = orig_h.get(origin[b], 0) + 1
+    for i, (b, f, g) in enumerate(zip(cases, F, G)):
+        orig_h[orig[i]] = orig_h.get(orig[i], 0) + 1
         if g[2] == "NONE":
             k = "no-non-decl"
         else:
@@ -251,24 +277,28 @@ def run(ctx):
             k = "chunks=%s funcs=%s %s" % (min(len(fl), 6), min(nf, 3), "moved" if moved else "same")
             if nf:
                 nontriv += 1
-        k += " src=%s ex=%s" % (f[1][0], f[4][0])
+        k += " src=%s ex=%s%s" % (f[1][0], f[4][0], " class" if clsl[i] else "")
         shapes[k] = shapes.get(k, 0) + 1
-    pick = [i for i, b in enumerate(cases) if origin[b] in ("script", "testdata-mutated")][:3]
+    pick = [i for i in range(len(cases)) if orig[i] in ("script", "testdata-mutated", "class-script")][:4]
     ctx.cover(evaluations=len(cases), distinct_nontrivial=nontriv,
               samples=[{"src": cases[i].decode("utf-8", "replace")[:300], "impl_hex": F[i][2][:200], "chunks": G[i][2][:200],
-                        "source": F[i][1], "source_ex": F[i][4]} for i in pick],
-              rule="deterministic: %d comment-after-func + %d fixed-set + %d _testdata files + every concatenation of <=%d pieces of %d "
+                        "class": clsl[i], "source": F[i][1], "source_ex": F[i][4]} for i in pick],
+              rule="deterministic: %d class-file inputs x {class=true, class=false} + %d comment-after-func + %d fixed-set + %d _testdata files + every concatenation of <=%d pieces of %d "
                    "and of <=%d statement-level items of %d (%d inputs, all distinct); seeded: structured scripts (declarations, functions, methods, generics, function "
                    "literals, statements, comments, CRLF, BOM, no trailing newline), their byte-mutations (delete/insert/duplicate/"
                    "truncate/brace insertion/random byte), mutated _testdata, mutated line lists; comments directly after the func "
-                   "keyword are generated (function literals and declarations); non-trivial = distinct source with at least one function chunk after the first non-declaration"
-                   % (len(FINDING_SET), len(FIXED_SET), len(td), K, len(PIECES), K, len(ITEMS), n_ex),
+                   "keyword are generated (function literals and declarations); every fifth seeded input additionally as a class file "
+                   "(class-only syntax in the prefix: var *Sprite, var ( Sprite ... )) with SourceEx driven with class=true; non-trivial = distinct source with at least one function chunk after the first non-declaration"
+                   % (len(CLASS_SET), len(FINDING_SET), len(FIXED_SET), len(td), K, len(PIECES), K, len(ITEMS), n_ex),
               origin_histogram=orig_h,
               shape_histogram=dict(sorted(shapes.items(), key=lambda kv: -kv[1])[:40]),
-              tiling_checked=len(cases) - len(notil), sourceex_clause_evaluated=sum(with_src))
+              tiling_checked=len(cases) - len(notil), sourceex_clause_evaluated=sum(with_src),
+              sourceex_with_class_true=sum(clsl),
+              class_true_rescued=sum(1 for f, c in zip(F, clsl) if c and f[1] == "E" and f[4].startswith("O")))
     ctx.assume("the token list fed to the model is /repo's scanner output for the source (ScanComments, offsets = pos - base); "
                "its tiling invariant (offsets non-decreasing, within [0,len]) is the hypothesis of the theorems and is checked on every list",
-               "format.Source is a parameter of the SourceEx theorem; the driver instantiates it with the real results on the two strings it is asked about",
+               "format.Source is a parameter (a function of source and class flag) of the SourceEx theorem; the driver instantiates it with the real "
+               "results on the two strings it is asked about, for the class flag of the case only (any other question = UNKNOWN = disagreement)",
                "a Go slice expression src[a:b] is modelled with bound len(src) (Go: cap(src)); under the tiling hypothesis no bound is reached")
     ctx.trust("modelled, not verified: format/formatutil/format_gop.go (RearrangeFuncs, codeOf, firstNonDecl, splitStmts, tokOf, "
               "aStmt.isFuncDecl/isDecl, isFuncDecl, seekAfter, startWith, SourceEx), hand-written Gallina model tied by differential run",
